@@ -975,9 +975,6 @@ func parseProgram(src string) (n *N, errText string) {
 // ---------------------------------------------------------------- program cases
 
 func (g *gen) progCase(stmts []*N, bucket string, density, semiStyle int) {
-	for i := range stmts {
-		stmts[i] = fixRel(stmts[i])
-	}
 	g.semiStyle = semiStyle
 	g.pendingNL = false
 	toks := g.printStmts(nil, stmts, "")
